@@ -586,10 +586,22 @@ def drain : Nat → Tcb → M SegmentArrivesResult
         | .error e => .error e
         | .ok (s, r) => if r.shouldDeleteTcb then .ok (s, .Close) else drain fuel s
 
-/-- `Tcb::segment_arrives` -/
+/-- `Tcb::segment_arrives`: first the acceptability test on arrival (`self.state != SynSent &&
+    !self.is_seq_ok(..)`: acknowledge and drop), then the reorder heap and the gate -/
 def segmentArrives (s : Tcb) (segment : Segment) : M SegmentArrivesResult :=
-  let s := { s with incoming.segments := Heap.push segLe s.incoming.segments segment }
-  drain (s.incoming.segments.length + 1) s
+  let acceptable : Except String Bool :=
+    if s.state = .SynSent then .ok true
+    else s.isSeqOk (BitVec.ofNat 32 segment.text.length) segment.hdr.seq segment.hdr.ctl.syn
+           segment.hdr.ctl.fin
+  match acceptable with
+  | .error e => .error e
+  | .ok false =>
+    match s.enqueue s.ackHdr with
+    | .error e => .error e
+    | .ok s => .ok (s, .Ok)
+  | .ok true =>
+    let s := { s with incoming.segments := Heap.push segLe s.incoming.segments segment }
+    drain (s.incoming.segments.length + 1) s
 
 end Tcb
 
